@@ -166,6 +166,7 @@ def run(ctx):
     check_v1_fields(ctx)
     check_sources(ctx)
     check_source_frames(ctx)
+    check_source_people(ctx)
 
 
 
@@ -327,6 +328,80 @@ def check_source_frames(ctx):
                               "(separator %r)" % (fid4, expected, ver, [x.get("text") for x in got], target, sep), c2)
             elif target == 3 and got[0].get("encoding") not in (0, 1):
                 ctx.violation("source-frames:v2.3:encoding", "v2.3 text frame written with encoding %r" % got[0].get("encoding"), c2)
+
+
+def check_source_people(ctx):
+    """byte-level source tags with an involved-people list (IPL in v2.2, IPLS in v2.3, TIPL/TMCL in v2.4) in every encoding
+    the version allows, with names inside and outside Latin-1: loaded (translated to v2.4) the pairs are all there; saved
+    as v2.4 and as v2.3 the tag is written and carries the same pairs in the frame of that version"""
+    from mutagen.id3 import ID3
+    rng = ctx.rng
+
+    def syncsafe(n):
+        return bytes([(n >> 21) & 0x7F, (n >> 14) & 0x7F, (n >> 7) & 0x7F, n & 0x7F])
+
+    def enc_list(enc, values):
+        if enc == 0:
+            return b"\x00" + b"".join(v.encode("latin-1") + b"\x00" for v in values)
+        if enc == 1:
+            return b"\x01" + b"".join(b"\xff\xfe" + v.encode("utf-16-le") + b"\x00\x00" for v in values)
+        if enc == 2:
+            return b"\x02" + b"".join(v.encode("utf-16-be") + b"\x00\x00" for v in values)
+        return b"\x03" + b"".join(v.encode("utf-8") + b"\x00" for v in values)
+    ROLES = ["producer", "engineer", "mix", "arranger", "guitar"]
+    LATIN = ["Ann Lee", "J\u00f6rg M\u00fcller", "x/y"]
+    WIDE = ["\u0141ukasz", "\u0414\u043c\u0438\u0442\u0440\u0438\u0439", "\u5c0f\u6797"]
+    for i in range(ctx.budget(60, 600)):
+        ver = (2, 3, 4)[i % 3]
+        enc = rng.choice((0, 1) if ver < 4 else (0, 1, 2, 3))
+        n = rng.choice([1, 2, 3])
+        names = rng.sample(LATIN if enc == 0 else (WIDE + LATIN), n)
+        if enc != 0 and i % 2 == 0:
+            names[0] = rng.choice(WIDE)
+        pairs = [[rng.choice(ROLES), nm] for nm in names]
+        flat = [x for p in pairs for x in p]
+        fid4 = "TIPL" if ver == 4 else "IPLS"
+        if ver == 4 and i % 4 == 1:
+            fid4 = "TMCL"
+        body = enc_list(enc, flat)
+        if ver == 2:
+            frames = b"IPL" + len(body).to_bytes(3, "big") + body
+        elif ver == 3:
+            frames = b"IPLS" + len(body).to_bytes(4, "big") + b"\0\0" + body
+        else:
+            frames = fid4.encode() + syncsafe(len(body)) + b"\0\0" + body
+        frames += (b"TT2" + (6).to_bytes(3, "big") + b"\x00title") if ver == 2 else \
+            (b"TIT2" + ((6).to_bytes(4, "big") if ver == 3 else syncsafe(6)) + b"\0\0" + b"\x00title")
+        data = b"ID3" + bytes([ver, 0, 0]) + syncsafe(len(frames) + 16) + frames + b"\0" * 16 + b"\xff\xfb\x90\x00" + b"\0" * 400
+        case = {"sub": "source-people", "version": ver, "encoding": enc, "pairs": pairs, "data_hex": data[:len(frames) + 26].hex()}
+        wide = any(ord(c) > 255 for x in flat for c in x)
+        ctx.hist["source-people:v2.%d:enc%d:%s" % (ver, enc, "outside-latin1" if wide else "latin1")] += 1
+        ctx.case(key=("source-people", ver, enc, repr(pairs), fid4), nontrivial=True, modelled=False, sample=case if i == 5 else None)
+        k, t = timed(lambda: ID3(io.BytesIO(data)), 10)
+        if k != "ok":
+            ctx.violation("source-people:load-fails", repr(t)[:100], case); continue
+        loaded_id = fid4 if ver == 4 else "TIPL"
+        have = [list(p) for p in t[loaded_id].people] if loaded_id in t else None
+        if have != pairs:
+            ctx.violation("source-people:v2.%d:load" % ver, "the people list %r of the source loads as %s %r" % (pairs, loaded_id, have), case); continue
+        for target in (4, 3):
+            k, t = timed(lambda: ID3(io.BytesIO(data)), 10)
+            g = io.BytesIO(data)
+
+            def save():
+                if target == 3:
+                    t.update_to_v23()
+                t.save(g, v2_version=target)
+            k2, r2 = timed(save, 10)
+            c2 = dict(case, target=target)
+            if k2 != "ok":
+                ctx.violation("source-people:save-fails:v2.%d" % target, "saving the loaded tag as v2.%d raised %r" % (target, r2), c2); continue
+            w = id3spec.walk_tag(g.getvalue())
+            want_id = "IPLS" if target == 3 else loaded_id
+            got = [id3spec.decode_frame(fid, body) for fid, fl, body in w.frames if fid == want_id]
+            if w.errors or len(got) != 1 or got[0].get("people") != pairs:
+                ctx.violation("source-people:v2.%d:pairs" % target, "the people list %r of the v2.%d source is written as %r (%s) in the v2.%d tag; "
+                              "walker errors %r" % (pairs, ver, [x.get("people") for x in got], want_id, target, w.errors[:2]), c2)
 
 
 def check_v1_fields(ctx):
